@@ -66,7 +66,7 @@ func (te *Extractor) Extract(reader io.Reader) error {
 	doUpdates := func() error {
 		for i := len(te.deferredUpdates) - 1; i >= 0; i-- {
 			m := te.deferredUpdates[i]
-			err := files.UpdateMetaUnix(m.path, uint32(m.mode), m.mtime)
+			err := applyDeferredUpdate(m)
 			if err != nil {
 				return err
 			}
@@ -400,6 +400,16 @@ func copyWithProgress(to io.Writer, from io.Reader, cb func(int64) int64) error 
 	}
 }
 
+// applyDeferredUpdate applies directory metadata recorded earlier. The directory may since have been
+// replaced by a later entry of the same name (a symlink, a file): chmod follows symlinks, so anything that
+// is no longer a directory is left alone.
+func applyDeferredUpdate(m deferredUpdate) error {
+	if fi, err := os.Lstat(m.path); err != nil || !fi.IsDir() {
+		return nil
+	}
+	return files.UpdateMetaUnix(m.path, uint32(m.mode), m.mtime)
+}
+
 type deferredUpdate struct {
 	path  string
 	mode  int64
@@ -425,7 +435,7 @@ func (te *Extractor) deferUpdate(path string, header *tar.Header) error {
 		// if possible, apply the previous deferral.
 		m := te.deferredUpdates[n-1]
 		if strings.HasPrefix(m.path, prefix()) {
-			err := files.UpdateMetaUnix(m.path, uint32(m.mode), m.mtime)
+			err := applyDeferredUpdate(m)
 			if err != nil {
 				return err
 			}
